@@ -181,10 +181,12 @@ type outcome struct {
 // created as `real` and `dst` is a symbolic link to it.
 func execute(line string, dstLink bool) (o outcome) {
 	f := strings.Fields(line)
-	if len(f) < 2 || (f[0] != "tar" && f[0] != "zip") {
+	isGuard := len(f) >= 2 && f[0] == "guard" // area guard: the sandbox is built, then EnsureNoSymlinks is called directly
+	if len(f) < 2 || (f[0] != "tar" && f[0] != "zip" && !isGuard) {
 		o.bad = true
 		return
 	}
+	gr, gp, grSet, gpSet := "", "", false, false
 	dlKind := 1 // how `dst` points at `real` when it is a link (dl:<k>)
 	dpKind := 0 // the destination is T/p/dst: 1 = p missing, 2 = p -> q, 3 = p -> m -> q, 4 = p -> /tmp/T/q (dp:<k>)
 	for _, w := range f[2:] {
@@ -229,6 +231,7 @@ func execute(line string, dstLink bool) (o outcome) {
 	via := ""
 	times := 1
 	ddSet, dd, cw := false, "", "" // dd: the destination as the caller spells it; cw: the working directory (below T)
+	cwGone := false                // cg:1: the process stands in a directory that was removed (os.Getwd fails)
 	if dpKind >= 2 {
 		must(os.Mkdir(filepath.Join(t, "q"), 0o755))
 		switch dpKind {
@@ -250,6 +253,12 @@ func execute(line string, dstLink bool) (o outcome) {
 		case p[0] == "r" && len(p) == 2:
 			times = hx.Atoi(p[1])
 		case (p[0] == "dl" || p[0] == "dp" || p[0] == "cf") && len(p) == 2:
+		case isGuard && p[0] == "gr" && len(p) == 2:
+			gr, grSet = string(hx.UnHex(p[1])), true
+		case isGuard && p[0] == "gp" && len(p) == 2:
+			gp, gpSet = string(hx.UnHex(p[1])), true
+		case p[0] == "cg" && len(p) == 2 && p[1] == "1":
+			cwGone = true
 		case p[0] == "dd" && len(p) == 2:
 			ddSet, dd = true, subst(string(hx.UnHex(p[1])))
 		case p[0] == "cw" && len(p) == 2:
@@ -278,6 +287,23 @@ func execute(line string, dstLink bool) (o outcome) {
 			o.bad = true
 			return
 		}
+	}
+	if isGuard {
+		if !grSet || !gpSet || len(entries) > 0 || dstLink || dpKind > 0 {
+			o.bad = true
+			return
+		}
+		gerr, have := guardCall(filepath.Join(t, gr), filepath.Join(t, gp))
+		if !have {
+			o.bad = true
+			return
+		}
+		o.res = "ok"
+		if gerr != nil {
+			o.res = "err"
+		}
+		o.nodes = collect(t, base)
+		return
 	}
 	dst := filepath.Join(t, "dst")
 	if dpKind > 0 {
@@ -345,10 +371,22 @@ func execute(line string, dstLink bool) (o outcome) {
 		o.bad = true
 		return
 	}
+	if cwGone && (!ddSet || via != "") {
+		o.bad = true
+		return
+	}
 	if ddSet { // the destination is handed over as spelled (relative, unclean, …) with the process in T/<cw>
-		if os.Chdir(filepath.Join(t, cw)) != nil {
+		wd := filepath.Join(t, cw)
+		if cwGone { // a directory of its own, removed as soon as the process stands in it: it is not part of the tree
+			wd = filepath.Join(t, "cwd-gone")
+			must(os.Mkdir(wd, 0o700))
+		}
+		if os.Chdir(wd) != nil {
 			o.bad = true
 			return
+		}
+		if cwGone {
+			must(os.Remove(wd))
 		}
 		defer func() { _ = os.Chdir("/") }()
 		dst = dd
@@ -753,6 +791,8 @@ func format(nodes []node) string {
 func main() {
 	syscall.Umask(0)
 	signal.Ignore(syscall.SIGXFSZ) // a write beyond RLIMIT_FSIZE must fail with EFBIG instead of killing the harness
-	hx.Main(map[string]hx.Area{"extract": area{}, "dstlink": linkArea{}, "dstlinkm": linkModelArea{}, "dstform": formArea{},
-		"closefault": closeArea{}})
+	areas := map[string]hx.Area{"extract": area{}, "dstlink": linkArea{}, "dstlinkm": linkModelArea{}, "dstform": formArea{},
+		"closefault": closeArea{}}
+	registerGuard(areas)
+	hx.Main(areas)
 }
